@@ -344,8 +344,16 @@ func (vc *VC) warn(format string, a ...interface{}) {
 	vc.warnings = append(vc.warnings, w)
 }
 
+func canonType(t types.Type) types.Type {
+	t = types.Unalias(t)
+	if p, ok := t.(*types.Pointer); ok {
+		return types.NewPointer(canonType(p.Elem()))
+	}
+	return t
+}
+
 func (vc *VC) typeTag(t types.Type) string {
-	k := types.TypeString(t, nil)
+	k := types.TypeString(canonType(t), nil)
 	if id, ok := vc.typeTags[k]; ok {
 		return fmt.Sprint(id)
 	}
